@@ -105,3 +105,64 @@ def at(a, rel, origin):
 def img(k, origin):
     r = calls_of('qchichange')[k].ret[0]
     return (r[0] + origin.x, r[1] + origin.y, r[2] + origin.z)
+
+
+# ---------------------------------------------------------------- the probing scans of the hydrogen optimiser (C05, C04, C14)
+# get_positions_with_two_bonds / get_position_with_three_bonds find the free tetrahedral sites of an atom by rotating its
+# substituents three times by 120 degrees.  Modular statement (the rotation itself is Residue.rotate_tetrahedral ->
+# quatfit.qchichange, proved rigid in quatfit.py; three equal rotations about one axis by a third of a turn are the identity:
+# harness `rotate_tetrahedral.three_thirds` below): the scan consists of exactly three rotations of 120 degrees about the
+# SAME bond of the SAME atom and writes no coordinate itself - so every substituent, not only the probe, is back where it
+# was (before round 5 this was an assumed contract).
+def PA(nm, name, bonds=()):
+    return Named(nm, Obj("pdb2pqr.structures:Atom", name=Const(name), x=Real, y=Real, z=Real, bonds=Items(*[Ref(b) for b in bonds]),
+                         residue=Ref("pres")))
+
+
+def _probe_res(n_sub):
+    subs = [("H1", PA("s1", "H1", ["ctr"])), ("H2", PA("s2", "H2", ["ctr"]))][:n_sub]
+    return Named("pres", Obj("pdb2pqr.aa:LYS", name=Const("LYS"),
+                             map=DictOf(("CE", PA("pv", "CE", ["ctr"])),
+                                        ("NZ", PA("ctr", "NZ", ["pv"] + [s[1].name for s in subs])), *subs),
+                             atoms=Items(Ref("pv"), Ref("ctr"), *[Ref(s[1].name) for s in subs])))
+
+
+THREE_THIRDS = ("len(calls_of('rotate_tetrahedral')) == 3 and forall(calls_of('rotate_tetrahedral'), "
+                "lambda c: c.args['angle'] == 120 and c.args['atom1'] is pv and c.args['atom2'] is ctr)")
+
+
+contract(
+    "pdb2pqr.hydrogens.optimize:Optimize.get_position_with_three_bonds", ["C05", "C04", "C14"],
+    params={"cls": Const(None), "atom": Ref("ctr"), "_res": _probe_res(2)},
+    requires=[],
+    ensures=[THREE_THIRDS],
+    trace={"pdb2pqr.residue:Residue.rotate_tetrahedral": None, "pdb2pqr.aa:Amino.rotate_tetrahedral": None},
+    modifies=[],
+    name="get_position_with_three_bonds", native=False,
+)
+
+contract(
+    "pdb2pqr.hydrogens.optimize:Optimize.get_positions_with_two_bonds", ["C05", "C04", "C14"],
+    params={"cls": Const(None), "atom": Ref("ctr"), "_res": _probe_res(1)},
+    requires=[],
+    ensures=[THREE_THIRDS],
+    trace={"pdb2pqr.residue:Residue.rotate_tetrahedral": None, "pdb2pqr.aa:Amino.rotate_tetrahedral": None},
+    modifies=[],
+    name="get_positions_with_two_bonds", native=False,
+)
+
+
+# the lemma the modular statement rests on: three rotations by a third of a turn about one bond put every substituent back
+# (real Residue.rotate_tetrahedral and quatfit.qchichange, exact cos/sin of 60 degrees)
+
+@harness(["C05", "C04", "C14"],
+         params={"_res": _probe_res(1)},
+         requires=["(pv.x - ctr.x) * (pv.x - ctr.x) + (pv.y - ctr.y) * (pv.y - ctr.y) + (pv.z - ctr.z) * (pv.z - ctr.z) > 0"],
+         ensures=["s1.x == old(s1.x) and s1.y == old(s1.y) and s1.z == old(s1.z)",
+                  "pv.x == old(pv.x) and ctr.x == old(ctr.x)"],
+         name="rotate_tetrahedral.three_thirds", native=False, thorough_only=True)
+def rot_three_thirds(_res):
+    _res.rotate_tetrahedral(_res.map["CE"], _res.map["NZ"], 120)
+    _res.rotate_tetrahedral(_res.map["CE"], _res.map["NZ"], 120)
+    _res.rotate_tetrahedral(_res.map["CE"], _res.map["NZ"], 120)
+    return _res
